@@ -608,8 +608,9 @@ def undo_raised_sig(doc, uas, error, undo=None):
   it updates rows of a summary table (`<source>_summary_...`) AND adds or removes rows of that same table."""
   summary_kinds = ('UpdateSummaryViewSection', 'DetachSummaryViewSection', 'CreateViewSection', 'RemoveViewSection',
                    'RemoveView', 'RemoveTable', 'RemoveColumn', 'ModifyColumn')
-  if 'non-existent record' in str(error) and len(uas) >= 2 and any(u[0] in summary_kinds for u in uas):
-    if doc.summary_tables() or any(u[0] in ('UpdateSummaryViewSection', 'DetachSummaryViewSection') for u in uas):
+  if 'non-existent record' in str(error) and len(uas) >= 2:
+    if any(u[0] in summary_kinds for u in uas) and (
+        doc.summary_tables() or any(u[0] in ('UpdateSummaryViewSection', 'DetachSummaryViewSection') for u in uas)):
       return 'summary-row-updated-before-it-exists'
     upd, addrm = set(), set()
     for a in (undo or []):
